@@ -859,3 +859,27 @@ def all_m(schema: Schema, rep: Report):
     m3_to_etree(schema, rep)
     m4_apply_args(schema, rep)
     m5_validate_args(schema, rep)
+
+
+def s_r9_own_descriptor(schema: Schema, rep: Report):
+    """every declared child owns its descriptor object"""
+    rep.rule("S-R9", "every declared child has a descriptor object of its own: no chained assignment `a = b = Type(...)` and no alias `b = a` in a model class body - Element.__set_name__ keeps one name per object, so two names bound to one descriptor read and write one stored value (the second child is written under the first one's value, or not at all)")
+    n = 0
+    for ci in schema.all_aggregate_classes():
+        spec_names = None
+        for st in ci.node.body:
+            if isinstance(st, ast.Assign) and isinstance(st.value, ast.Call):
+                names = [t.id for t in st.targets if isinstance(t, ast.Name)]
+                if len(names) > 1:
+                    spec_names = spec_names if spec_names is not None else set(schema.spec(ci))
+                    shared = [x for x in names if x in spec_names]
+                    if len(shared) > 1:
+                        rep.check("S-R9", f"{ci.name}:{'='.join(shared)}:one-descriptor-per-child", False, f"{' = '.join(shared)} = {text(st.value)[:40]} binds ONE descriptor object to {len(shared)} children: they share a single stored value", loc(ci, st))
+            elif isinstance(st, ast.Assign) and isinstance(st.value, ast.Name) and len(st.targets) == 1 and isinstance(st.targets[0], ast.Name):
+                spec_names = spec_names if spec_names is not None else set(schema.spec(ci))
+                if st.value.id in spec_names and st.targets[0].id in spec_names and st.targets[0].id != st.value.id:
+                    rep.check("S-R9", f"{ci.name}:{st.targets[0].id}={st.value.id}:one-descriptor-per-child", False, f"{st.targets[0].id} is an alias of the descriptor of {st.value.id}: both children share a single stored value", loc(ci, st))
+        n += 1
+    rep.unit("classes_checked_for_shared_descriptors", n)
+    if not any(o.rule == "S-R9" and not o.ok for o in rep.obligations):
+        rep.check("S-R9", "one-descriptor-per-child", True, f"{n} classes", "")
